@@ -145,7 +145,8 @@ theorem step_acked_le_sent {f : Facts} {m : OvMode} (hcap : f.ackCap = true) (hr
         · simp; exact ackCapped_le_sent hcap _ _
         · exact h
       · exact h
-    | cancel r => simp only; split <;> exact h
+    | cancel r => simp only; repeat' split
+                  all_goals exact h
     | advance n => simp
     | requestResume p file off =>
       simp only
@@ -194,7 +195,8 @@ theorem step_inFlight_le {f : Facts} {m : OvMode} (s : State) (op : Op)
           simp; omega
         · exact Nat.le_refl _
       · exact Nat.le_refl _
-    | cancel r => simp only; split <;> exact Nat.le_refl _
+    | cancel r => simp only; repeat' split
+                  all_goals exact Nat.le_refl _
     | advance n => simp
     | requestResume p file off =>
       simp only
@@ -442,13 +444,14 @@ theorem Follows.prefix {f : Facts} {m : OvMode} (a b : List Op) (s : State) (g :
 
 /-! ### C11: cancellation -/
 
-theorem step_cancel_sticky {f : Facts} {m : OvMode} (hk : f.advanceKeepsCancel = true) (s : State) (op : Op) (r : Nat)
+theorem step_cancel_sticky {f : Facts} {m : OvMode} (hk : f.advanceKeepsCancel = true) (hw : f.cancelFirstWins = true)
+    (s : State) (op : Op) (r : Nat)
     (h : s.cancelled = some r) : (step f m s op).1.cancelled = some r := by
   unfold step
   by_cases hp : s.poisoned = true
   · simp [hp, h]
   · simp only [hp, if_false, Bool.false_eq_true]
-    cases op <;> simp only [h, hk, poison] <;> repeat' split
+    cases op <;> simp only [h, hk, hw, poison] <;> repeat' split
     all_goals first | exact h | simp_all
 
 theorem cancelled_waits {f : Facts} {m : OvMode} (hcf : f.reconnCancelFirst = true) (s : State) (r : Nat)
@@ -705,22 +708,22 @@ theorem replay_tail {l : List Chunk} (hc : Contig l) {off : Nat} (hb : Boundary 
 /-! ### the idle watchdog only ever cancels -/
 
 /-- `cancel` changes nothing but an empty cancel slot. -/
-theorem step_cancel_eq {f : Facts} {m : OvMode} (s : State) (r : Nat) :
+theorem step_cancel_eq {f : Facts} {m : OvMode} (hw : f.cancelFirstWins = true) (s : State) (r : Nat) :
     (step f m s (.cancel r)).1 = if s.poisoned = false ∧ s.cancelled = none then { s with cancelled := some r } else s := by
   unfold step
   by_cases hp : s.poisoned = true
   · simp [hp]
   · have hpf : s.poisoned = false := by simpa using hp
-    cases hc : s.cancelled <;> simp [hpf, hc]
+    cases hc : s.cancelled <;> simp [hpf, hc, hw]
 
 /-- Whatever the watchdog saw and whatever the clock says, a visit leaves every field alone except that it
 may fill an empty cancel slot with the idle reason. -/
-theorem watchdog_visit_effect {f : Facts} {m : OvMode} (s : State) (saw idle : Bool) :
+theorem watchdog_visit_effect {f : Facts} {m : OvMode} (hw : f.cancelFirstWins = true) (s : State) (saw idle : Bool) :
     run f m s (watchdogVisit saw idle) = s ∨
     (s.cancelled = none ∧ run f m s (watchdogVisit saw idle) = { s with cancelled := some idleReason }) := by
   unfold watchdogVisit
   cases saw <;> cases idle <;> simp [run]
-  rw [step_cancel_eq]
+  rw [step_cancel_eq hw]
   by_cases h : s.poisoned = false ∧ s.cancelled = none
   · simp [h]
   · simp [h]
@@ -787,7 +790,8 @@ theorem step_wraps_not_poisoned (f : Facts) (s : State) (op : Op) (hp : s.poison
     simp only
     repeat' split
     all_goals simp [hp]
-  | cancel r => simp only; split <;> simp [hp]
+  | cancel r => simp only; repeat' split
+                all_goals first | exact hp | simp [hp]
   | advance n => simp [hp]
   | waitReconnect =>
     simp only
@@ -1130,5 +1134,75 @@ def lockedMethods : List String :=
 /-- every listed method takes the mutex, and every method that takes it does so exactly once -/
 def singleSection (lockCalls : List (String × Nat)) : Bool :=
   lockCalls.all (fun e => e.2 == 1) && lockedMethods.all (fun m => lockCalls.any (fun e => e.1 == m))
+
+/-! ### cancel reasons are opaque values
+
+The model never inspects a reason: renaming the reasons of a history (by any function — in particular one that
+sends the empty string's token to any other token, or two strings to the same token) renames the stored reason
+and the reasons the waits report, and changes nothing else. -/
+
+def renameS (ρ : Nat → Nat) (s : State) : State := { s with cancelled := s.cancelled.map ρ }
+def renameOp (ρ : Nat → Nat) : Op → Op
+  | .cancel r => .cancel (ρ r)
+  | op => op
+def renameRet (ρ : Nat → Nat) : Ret → Ret
+  | .creditCancelled r => .creditCancelled (ρ r)
+  | .reconnCancelled r => .reconnCancelled (ρ r)
+  | x => x
+
+theorem step_rename (f : Facts) (m : OvMode) (ρ : Nat → Nat) (s : State) (op : Op) :
+    step f m (renameS ρ s) (renameOp ρ op) = (renameS ρ (step f m s op).1, renameRet ρ (step f m s op).2) := by
+  obtain ⟨w, cap, sent, acked, file, cancelled, chunks, held, peer, pending, poisoned⟩ := s
+  cases poisoned
+  · cases op with
+    | recordSent off => by_cases h : off > sent <;> simp [step, renameS, renameOp, renameRet, h]
+    | recordAck fi off =>
+      by_cases h1 : (!f.ackFileTest || fi == file) = true <;>
+        by_cases h2 : ackAdvances f (ackCapped f off sent) acked = true <;>
+        simp [step, renameS, renameOp, renameRet, h1, h2]
+    | cancel r => cases cancelled <;> cases hw : f.cancelFirstWins <;> simp [step, renameS, renameOp, renameRet, hw]
+    | advance n => cases cancelled <;> cases hw : f.advanceKeepsCancel <;> simp [step, renameS, renameOp, renameRet, hw]
+    | requestResume p fi off =>
+      cases cancelled with
+      | some r => simp [step, renameS, renameOp, renameRet]
+      | none =>
+        by_cases hf : fi = file
+        · cases hc : covers f m chunks off with
+          | ok b =>
+            cases b
+            · simp [step, renameS, renameOp, renameRet, hf, hc]
+            · by_cases hb : resumeBumps f off acked sent = true <;>
+                simp [step, renameS, renameOp, renameRet, hf, hc, hb]
+          | err e => simp [step, renameS, renameOp, renameRet, hf, hc, poison]
+          | panic => simp [step, renameS, renameOp, renameRet, hf, hc, poison]
+          | abort => simp [step, renameS, renameOp, renameRet, hf, hc, poison]
+        · simp [step, renameS, renameOp, renameRet, hf]
+    | waitCredit len =>
+      cases cancelled with
+      | some r => simp [step, renameS, renameOp, renameRet]
+      | none =>
+        cases hc : creditFits f m (sent - acked) len w with
+        | ok b => cases b <;> simp [step, renameS, renameOp, renameRet, inFlight, hc]
+        | err e => simp [step, renameS, renameOp, renameRet, inFlight, hc, poison]
+        | panic => simp [step, renameS, renameOp, renameRet, inFlight, hc, poison]
+        | abort => simp [step, renameS, renameOp, renameRet, inFlight, hc, poison]
+    | waitReconnect =>
+      cases cancelled <;> cases pending <;> cases hw : f.reconnCancelFirst <;>
+        simp [step, renameS, renameOp, renameRet, hw]
+    | pushReplay off dlen last body =>
+      by_cases ha : pushAssertOk m chunks off = true <;>
+        simp [step, renameS, renameOp, renameRet, ha, poison]
+    | replayFrom off => simp [step, renameS, renameOp, renameRet]
+    | setPeer p => simp [step, renameS, renameOp, renameRet]
+  · simp [step, renameS, renameRet]
+
+theorem run_rename (f : Facts) (m : OvMode) (ρ : Nat → Nat) (s : State) (ops : List Op) :
+    run f m (renameS ρ s) (ops.map (renameOp ρ)) = renameS ρ (run f m s ops) := by
+  induction ops generalizing s with
+  | nil => rfl
+  | cons op ops ih =>
+    simp only [List.map, run]
+    rw [step_rename]
+    exact ih _
 
 end Repe.Transfer
